@@ -14,6 +14,8 @@ META = {
 def gen_history(r, keys, big=False):
     g = TreeGen(r, keys)
     g.grow(r.randint(3, 14 if not big else 30))
+    if g.n() and r.random() < 0.5:
+        near_rep_ops(r, g)
     ops = list(g.ops)
     n = g.n()
     if n == 0:
@@ -98,7 +100,7 @@ def main(argv):
     if ck.replay:
         hs = [read_replay(ck.replay)]
     else:
-        n = 350 if ck.tier == "quick" else 12000
+        n = 350 if ck.tier == "quick" else 4000
         hs = CORPUS + [gen_history(ck.rng, keys, big=(i % 10 == 0)) for i in range(n)]
     ck.correspond(hb, db, hs, label="dtype", nontrivial=nontrivial,
                   ubsan_is_violation=r"dtype/|dtype\.(cpp|hpp)|kernelMetadata|core/kernel\.cpp")
